@@ -43,6 +43,9 @@ def parse_type(a):
             if len(non_none) == 1 and len(elts) == 2:
                 inner = parse_type(non_none[0])
                 return inner if inner[0] in ("opt", "dyn") else ("opt", inner)
+            members = [parse_type(x) for x in non_none]
+            if members and all(m[0] == "ref" for m in members) and len(non_none) == len(elts):
+                return members[0]          # Union[Order, Cancel]: analysed with the first member as static type (tasks override where Cancel matters)
             return ("dyn",)
         if base == "Callable":
             return ("func",)
